@@ -2,6 +2,7 @@
 package c13
 
 import (
+	"context"
 	"encoding/json"
 	"errors"
 	"fmt"
@@ -428,6 +429,9 @@ type LoggerCase struct {
 	Spec        *Spec  `json:"spec"`
 	LoggerLevel int    `json:"logger_level"`
 	Events      []LEvt `json:"events"`
+	// Derive: what else the logger carries, added after Sample(): "" nothing | ctx (With().Ctx(a context with a
+	// value)) | fields | hook (a hook that does nothing) | output (Output(w) again) | stack | all of them
+	Derive string `json:"derive,omitempty"`
 }
 type LEvt struct {
 	Lvl     int   `json:"lvl"`
@@ -513,6 +517,21 @@ func runLogger(c *LoggerCase) (string, bool) {
 	defer zerolog.DisableSampling(false)
 	w := &cw{}
 	l := zerolog.New(w).Level(zerolog.Level(c.LoggerLevel)).Sample(build(c.Spec))
+	type ctxKey struct{}
+	switch c.Derive {
+	case "ctx":
+		l = l.With().Ctx(context.WithValue(context.Background(), ctxKey{}, "v")).Logger()
+	case "fields":
+		l = l.With().Str("k", "v").Timestamp().Logger()
+	case "hook":
+		l = l.Hook(zerolog.HookFunc(func(*zerolog.Event, zerolog.Level, string) {}))
+	case "output":
+		l = l.Output(w)
+	case "stack":
+		l = l.With().Stack().Caller().Logger()
+	case "all":
+		l = l.With().Ctx(context.WithValue(context.Background(), ctxKey{}, "v")).Str("k", "v").Stack().Logger().Hook(zerolog.HookFunc(func(*zerolog.Event, zerolog.Level, string) {})).Output(w)
+	}
 	m := newModel(c.Spec)
 	for i, e := range c.Events {
 		clock = e.Now
@@ -533,7 +552,8 @@ func runLogger(c *LoggerCase) (string, bool) {
 
 func TestRapidThroughLogger(t *testing.T) {
 	rapid.Check(t, func(rt *rapid.T) {
-		c := &LoggerCase{Spec: genSpec(rt, 2, "spec"), LoggerLevel: rapid.SampledFrom([]int{-1, 0, 1, 2}).Draw(rt, "ll")}
+		c := &LoggerCase{Spec: genSpec(rt, 2, "spec"), LoggerLevel: rapid.SampledFrom([]int{-1, 0, 1, 2}).Draw(rt, "ll"),
+			Derive: rapid.SampledFrom([]string{"", "", "ctx", "fields", "hook", "output", "stack", "all"}).Draw(rt, "derive")}
 		calls := genCalls(rt, 60)
 		for _, cl := range calls {
 			if rapid.IntRange(0, 9).Draw(rt, "disabledlvl") == 0 {
